@@ -278,6 +278,25 @@ var greedySegments = []string{
 	"DESCRIBE",
 	"REPLACE INTO t1 VALUES ( 1 )",
 	"REPLACE INTO t1 VALUES ( 1",
+	"CREATE INDEX ix ON t1 ( a NULLS",
+	"CREATE INDEX ix ON t1 ( a NULLS FIRST",
+	"CREATE INDEX ix ON t1 ( a DESC NULLS",
+	"CREATE TABLE n1 ( a VARCHAR ( 10",
+	"CREATE TABLE n1 ( a DECIMAL ( 10 ,",
+	"CREATE TABLE n1 ( a DECIMAL ( 10 , 2",
+	"ALTER TABLE t1 ADD COLUMN c VARCHAR ( 10",
+	"CREATE TABLE n1 ( a INT ) PARTITION BY RANGE ( a ) ( PARTITION p0 VALUES LESS THAN",
+	"CREATE TABLE n1 ( a INT REFERENCES t1 ( b ) ON DELETE",
+	"CREATE TABLE n1 ( a INT ) ENGINE =",
+	"TRUNCATE TABLE t1 ,",
+	"DROP TABLE IF EXISTS t1 ,",
+	"SELECT a FROM t1 FOR UPDATE OF",
+	"SELECT a FROM t1 FETCH FIRST 3 ROWS",
+	"SELECT SUM ( a ) OVER ( ORDER BY b ROWS BETWEEN 1 PRECEDING AND",
+	"INSERT INTO t1 VALUES ( 1 ) ON CONFLICT ( a ) DO",
+	"MERGE INTO t1 USING t2 ON t1 . a = t2 . a WHEN MATCHED THEN",
+	"CREATE MATERIALIZED VIEW mv TABLESPACE",
+	"REFRESH MATERIALIZED VIEW",
 }
 
 func genRecoveryScript(rt *rapid.T) ScriptCase {
@@ -292,7 +311,7 @@ func genRecoveryScript(rt *rapid.T) ScriptCase {
 			vec = append(vec, "greedy")
 			continue
 		}
-		f := sqlgen.AllFeatures()
+		f := sqlgen.FullFeatures()
 		f.Flat = true
 		f.MaxDepth = 2
 		f.NoGroupingOps = true // "GROUPING SETS" stays one parser token: token indices would not line up with generated ones
